@@ -9,9 +9,21 @@ EXTENDS Integers, FiniteSets
 (* ring.InstanceState *)
 States == {"ACTIVE", "LEAVING", "PENDING", "JOINING", "LEFT"}
 
-(* Age of the last heartbeat relative to the ring's heartbeat timeout:     *)
-(* "fresh" = younger, "edge" = exactly the timeout, "stale" = older.  Only *)
-(* a stale heartbeat makes an instance unhealthy (the comparison is <=).   *)
+(* Age of the last heartbeat relative to the ring's heartbeat timeout.  The *)
+(* age is a real duration (clock minus timestamp; timestamps have second   *)
+(* granularity, the clock has not), and only its relation to the timeout   *)
+(* matters:                                                                *)
+(*   "fresh"  age < timeout                                                *)
+(*   "edge"   the closed boundary: age = timeout when the clock is on a     *)
+(*            whole second, otherwise the largest age <= timeout a         *)
+(*            second-granular timestamp can have (timeout - 1 s + f)       *)
+(*   "stale"  ANY age > timeout, including timeout + epsilon (a timestamp  *)
+(*            exactly timeout seconds behind a clock that is f > 0 into    *)
+(*            the current second) as well as timeout + 1 s and beyond      *)
+(* Only a stale heartbeat makes an instance unhealthy (the comparison is   *)
+(* age <= timeout on the full-resolution age).  The harness concretises    *)
+(* every class both for a clock on a whole second and for a clock inside a *)
+(* second, and the same expected results must hold for both.               *)
 Heartbeats == {"fresh", "edge", "stale"}
 HeartbeatOK(hb) == hb # "stale"
 
